@@ -807,6 +807,11 @@ def run(model: Model, rep, tier: str) -> None:
     staged(lambda: _queries(model, rep), lambda: _names_to_rows(model, rep),
            lambda: _view_methods(model, rep), lambda: _dispatch(model, rep),
            lambda: _predicates(model, rep))
+    from ..dgspace import report as _dg_report
+    _dg_report(model, rep, "C07-R4", lambda n: n.endswith("_satisfying"),
+               "the predicate is evaluated at garbage midpoints and the "
+               "query (also a tag defined through a predicate) silently "
+               "selects other entities", minimum=2)
     rep.require_min("C07-R1", 150)
     rep.require_min("C07-R2", 50)
     rep.require_min("C07-R3", 8)
